@@ -324,3 +324,152 @@ func firstWords(s string) string {
 	}
 	return s
 }
+
+// RunC07Overlap: two or three honest reports (and a limit change) overlap at
+// statement granularity inside UpdateRateLimitConditionStatus.
+func RunC07Overlap(r *sim.Run) {
+	t := r.T
+	storeKind := []string{"local", "k8s"}[t.Draw(2)]
+	w := NewWorld(r, 1, 1, storeKind, 0)
+	defer w.Stop()
+	w.Sc.Enabled = func(site string) bool { return strings.HasPrefix(site, "ratelimter.go") }
+	w.StartReplica(0)
+	const up = "up-a"
+	L := []int32{10, 50, 100, 1000}[t.Draw(4)]
+	s := &schemaCfg{name: "mif", limit: L}
+	w.PutCluster(clusterObj(up, []*schemaCfg{s}))
+	w.Advance(5 * time.Second)
+	rp := w.Replicas[0]
+	if !w.believesLeader(rp, 0) {
+		r.Inconclusive("no leader after 5 s")
+		return
+	}
+	nInst := t.Range(2, 4)
+	type oinst struct {
+		id   string
+		last quota
+	}
+	var insts []*oinst
+	for i := 0; i < nInst; i++ {
+		id := fmt.Sprintf("inst%d", i)
+		insts = append(insts, &oinst{id: id})
+		_ = rp.RL.Heartbeat(id)
+	}
+	ids := func() []string {
+		var out []string
+		for _, in := range insts {
+			out = append(out, in.id)
+		}
+		return out
+	}
+	rounds := t.Range(3, 12)
+	overlapped := 0
+	for round := 0; round < rounds && !r.Violated(); round++ {
+		r.Step = round
+		for _, in := range insts {
+			_ = rp.RL.Heartbeat(in.id) // keep them known (fake time barely moves)
+		}
+		before, err := recordedQuotas(rp, up, ids(), s)
+		if err != nil {
+			r.Inconclusive("read back: " + err.Error())
+			return
+		}
+		var S int64
+		for _, v := range before {
+			S += int64(v)
+		}
+		// choose the instances that report in this round (distinct)
+		k := t.Range(1, len(insts))
+		perm := append([]*oinst(nil), insts...)
+		for i := len(perm) - 1; i > 0; i-- {
+			j := t.Draw(i + 1)
+			perm[i], perm[j] = perm[j], perm[i]
+		}
+		chosen := perm[:k]
+		type res struct {
+			in   *oinst
+			q    int32
+			used int32
+			err  error
+		}
+		results := make([]*res, len(chosen))
+		for ci, in := range chosen {
+			ci, in := ci, in
+			used := int32(0)
+			if in.last.known && in.last.q > 0 {
+				used = int32(t.Draw(int(math.Min(float64(in.last.q)*1.3+2, 5000))))
+			}
+			results[ci] = &res{in: in, used: used}
+			w.Sc.Go(fmt.Sprintf("r%d-%s", round, in.id), func() {
+				ans, err := rp.RL.UpdateRateLimitConditionStatus(up, allocReport(up, in.id, "mif", in.last.q, in.last.known, used))
+				results[ci].err = err
+				if err == nil {
+					for _, it := range ans.Spec.LimitItemConfigurations {
+						if it.Name == "mif" && it.MaxRequestsInflight != nil {
+							results[ci].q = it.MaxRequestsInflight.Max
+						}
+					}
+				}
+			})
+		}
+		if k > 1 {
+			overlapped++
+		}
+		// drive only this round's threads to completion under a drawn schedule
+		for steps := 0; steps < 3000; steps++ {
+			el := w.Sc.Eligible()
+			if len(el) == 0 {
+				break
+			}
+			w.Sc.Resume(el[t.Draw(len(el))])
+		}
+		for _, th := range w.Sc.Threads() {
+			if !th.Done() {
+				r.Violate("deadlock", "c07-overlap", "report threads did not finish: %s", w.Sc.Describe())
+				return
+			}
+			if th.Panic != nil {
+				r.Violate("panic", th.PanicTop, "report panicked: %v", th.Panic)
+				return
+			}
+		}
+		var parts []string
+		for _, rs := range results {
+			if rs.err != nil {
+				parts = append(parts, fmt.Sprintf("%s: error", rs.in.id))
+				continue
+			}
+			prev := rs.in.last
+			rs.in.last = quota{q: rs.q, known: true}
+			parts = append(parts, fmt.Sprintf("%s: used=%d prev=%d -> %d", rs.in.id, rs.used, prev.q, rs.q))
+			r.Checked("quota_within_1_and_limit")
+			if rs.q < 1 || rs.q > L {
+				r.Violate("quota_out_of_range", rangeSig(rs.q, L), "limit %d: instance %s was answered %d", L, rs.in.id, rs.q)
+				return
+			}
+		}
+		r.Logf("round %d (sum before %d/%d): %s", round, S, L, strings.Join(parts, "; "))
+		after, err := recordedQuotas(rp, up, ids(), s)
+		if err != nil {
+			continue
+		}
+		if S <= int64(L) {
+			r.Checked("sum_stays_within_limit_under_overlap")
+			var sum int64
+			for _, v := range after {
+				if v > 1 {
+					sum += int64(v)
+				}
+			}
+			if sum > int64(L) {
+				r.Violate("over_committed", fmt.Sprintf("overlap/%s", storeKind), "limit %d, store %s: recorded quotas summed to %d before %d overlapping honest reports (%s); afterwards the recorded quotas above 1 sum to %d: %v", L, storeKind, S, k, strings.Join(parts, "; "), sum, after)
+				return
+			}
+		}
+	}
+	r.SimSecs = w.Now().Seconds()
+	r.ProbeN("rounds_with_overlap", overlapped)
+	r.ProbeN("yields", w.Sc.Yields)
+	r.Nontrivial = overlapped > 0
+	r.Sample = map[string]interface{}{"limit": L, "store": storeKind, "instances": nInst, "rounds": rounds, "overlapping_rounds": overlapped}
+}
